@@ -74,6 +74,7 @@ class Degree(Interp):
         self.attr_values = dict(attr_values or {})
         self.depth = depth
         self.notes: List[str] = []
+        self.softmin: List[str] = []
         self.mixed: List[str] = []
 
     def top(self):
@@ -209,6 +210,7 @@ class Degree(Interp):
                 sub = Degree(callee, self.repo, self.cls, self.config, self.attr_values, self.depth + 1)
                 sub.run(e2)
                 self.notes += sub.notes
+                self.softmin += sub.softmin
                 self.mixed += sub.mixed
                 out = None
                 for v, _r, _e in sub.returns:
@@ -227,6 +229,11 @@ class Degree(Interp):
             return DV(target.d, target.zero)
         if short in ("full_like", "full", "ones", "ones_like", "arange", "isinstance", "len", "range", "product", "numel", "dim", "size", "nonzero", "is_complex", "any", "all", "angle", "argmin", "argmax", "sign", "where", "randn_like", "rand_like"):
             return CONST
+        if short in ("logsumexp", "softmin", "softmax", "log_softmax") and isinstance(target, DV) and target.d not in (None, {}):
+            # a soft minimum / soft weighting over several candidates of a dimensional quantity: between min and mean, it is not
+            # a homogeneous function of the quantity's scale (it equals the hard minimum only for a single candidate)
+            self.softmin.append(f"`{unparse(node)[:70]}` is a soft minimum over candidates of a quantity of degree {DV(target.d).show()}")
+            return UNK
         if short in ("exp", "log", "sigmoid", "tanh", "log10") and isinstance(target, DV):
             if target.d == {}:
                 return CONST
